@@ -1,5 +1,59 @@
-"""C06 part 2: real inotify / polling emitters (added later)."""
+"""C06 part 2: the lifecycle programs on the REAL inotify and polling emitters (real kernel / real directory, virtual
+clock), including a root that disappears before stop(), stop() twice, stop() from inside a callback."""
+from harness import explore, tlc
+
+SCEN = "checks.scen_fd:real_lifecycle_program"
+MAP = {"P_C12_ThreadsGone": "P_C06_AllExited", "P_C12_NoDeadlock": "P_C06_NoDeadlock"}
+
+
+def programs():
+    A = [["schedule", "."], ["start"], ["touch", "f"], ["stop"], ["join"]]
+    out = []
+    for obs in ("inotify", "polling"):
+        extra = [["poll"]] if obs == "polling" else []
+        out += [
+            {"observer": obs, "threads": {"app1": A}},
+            {"observer": obs, "threads": {"app1": [["schedule", "."], ["start"], ["rmroot"]] + extra + [["stop"], ["stop"], ["join"]]}},
+            {"observer": obs, "threads": {"app1": [["schedule", "."], ["start"], ["touch", "f"]] + extra + [["join"]],
+                                          "app2": [["stop"]]}},
+            {"observer": obs, "threads": {"app1": [["cb_stop"], ["start"], ["touch", "f"]] + extra + [["join"]]}},
+            {"observer": obs, "threads": {"app1": [["schedule", "."], ["start"], ["unschedule", "."], ["schedule", "d1"], ["unschedule_all"],
+                                                   ["stop"], ["join"]]}},
+            {"observer": obs, "threads": {"app1": [["start"], ["schedule", "."], ["stop"], ["join"]], "app2": [["schedule", "d1"], ["unschedule", "d1"]]}},
+        ]
+    return out
 
 
 def run_real(c):
-    return
+    traces, meta = [], []
+    total = 0
+    for pat in programs():
+        b = 1 if c.thorough else 0
+        if b:
+            n, recs = explore.dfs(SCEN, pat, b, jobs=c.jobs)
+        else:
+            n, recs = 0, []
+        base = c.seed * 1000003
+        n2, recs2 = explore.sample(SCEN, pat, range(base, base + (400 if c.thorough else 60)), jobs=c.jobs, extra={"stickiness": 0.5})
+        n3, recs3 = explore.sample(SCEN, pat, range(base, base + (200 if c.thorough else 30)), kind="pct", jobs=c.jobs,
+                                   extra={"depth": 3, "est_steps": 300})
+        total += n + n2 + n3
+        for rec in recs + recs2 + recs3:
+            traces.append(rec["trace"])
+            meta.append({"scenario": SCEN, "params": pat, "choices": rec["choices"]})
+    c.cov["evaluations"] += total
+    c.cov["distinct_nontrivial"] += len(traces)
+    verdicts, stats = tlc.validate_traces("InotifyFdTrace", "InotifyFdTrace.cfg", traces, chunk=max(40, len(traces) // (c.jobs * 2) + 1),
+                                          parallel=c.jobs)
+    c.add_trace_stats("InotifyFdTrace(real emitters)", len(traces), stats)
+    c.cov["states"] += stats["distinct"]
+    c.cov["transitions"] += stats["generated"]
+    for tr, m, v in zip(traces, meta, verdicts):
+        if v["accepted"]:
+            continue
+        for clause in v["viol"]:
+            if clause in MAP:
+                rp = dict(m, trace=tr, trace_spec=["InotifyFdTrace", "InotifyFdTrace.cfg"])
+                c.violation(MAP[clause], f"{MAP[clause]} is FALSE with the real {m['params']['observer']} emitter: {m['params']['threads']}", rp)
+    c.note(f"real emitters (inotify on the real kernel, polling on a real directory, virtual clock): {total} executions of "
+           f"{len(programs())} lifecycle programs, {len(traces)} distinct traces")
